@@ -84,9 +84,11 @@ fn cmd_net(args: &[String]) -> i32 {
             gg.joins = g["joins"].as_bool().unwrap_or(true);
             gg.gen(g["depth"].as_u64().unwrap_or(4) as u32)
         };
-        let particle = h["particle"].as_str().unwrap_or("particle-1").to_string();
+        // several particle ids within one harness process (signing state must not leak between particles)
+        let particle = h["particle"].as_str().map(|s| s.to_string()).unwrap_or_else(|| format!("particle-{}", hid % 3 + 1));
         let mut n = net::Net::new(&peers, hid, script, &init, names, &particle, net::Limits::default());
         n.probes = probes;
+        n.fresh_every = h["fresh_every"].as_u64().unwrap_or(0);
         n.joinfree = h.get("gen").map(|g| !g["joins"].as_bool().unwrap_or(true)).unwrap_or(false) || h["joinfree"].as_bool().unwrap_or(false);
         let source = if h.get("steps").is_some() { "explicit" } else { "random" };
         n.out.push(n.reset_record(h["source"].as_str().unwrap_or(source), seed));
@@ -132,6 +134,7 @@ fn main() {
     }));
     let code = match args.get(1).map(|s| s.as_str()) {
         Some("net") => cmd_net(&args[2..]),
+        Some("one") => net::cmd_one(args.get(2).map(|s| s.as_str()).unwrap_or("")),
         Some("fn") => fncases::cmd_fn(&args[2..]),
         Some("attack") => attack::cmd_attack(&args[2..]),
         _ => {
